@@ -185,7 +185,7 @@ VERIF_HARNESS(c18_uri) {
 #ifdef C18_OBSERVE
 /* the cache key is a SHA-256 computed in GnuTLS (not encodable): an allocation of the key object that may fail like any other */
 coap_cache_key_t *
-coap_cache_derive_key_w_ignore(coap_session_t *session, const coap_pdu_t *pdu, coap_cache_session_based_t session_based,
+coap_cache_derive_key_w_ignore(const coap_session_t *session, const coap_pdu_t *pdu, coap_cache_session_based_t session_based,
                                const uint16_t *cache_ignore_options, size_t cache_ignore_count) {
   (void)session; (void)pdu; (void)session_based; (void)cache_ignore_options; (void)cache_ignore_count;
   coap_cache_key_t *k = (coap_cache_key_t *)coap_malloc_type(COAP_CACHE_KEY, sizeof(coap_cache_key_t));
@@ -196,7 +196,7 @@ void coap_delete_cache_key(coap_cache_key_t *cache_key) { coap_free_type(COAP_CA
 
 VERIF_HARNESS(c18_observe) {
   static coap_resource_t res;
-  static const uint8_t tokb[2] = {0x51, 0x52};
+  VERIF_IN_BUF(tokb, 2);                /* token bytes symbolic; the failing allocation is concrete per job */
   coap_bin_const_t token = {2, tokb};
   coap_subscription_t *s;
   unsigned ref_before;
@@ -240,18 +240,22 @@ VERIF_HARNESS(c18_observe) {
 static int large_rel_calls;
 static void large_release(coap_session_t *session, void *app_ptr) { (void)session; (void)app_ptr; large_rel_calls++; }
 VERIF_HARNESS(c18_large) {
-  VERIF_IN_BUF(body, 40);
+#ifdef C18_LARGE_SYMBODY
+  VERIF_IN_BUF(body, 100);
+#else
+  static const uint8_t body[100] = {1, 2, 3};      /* the body is only copied; the symbolic input of this scenario is the failing allocation */
+#endif
   static const uint8_t tokb[2] = {0x51, 0x52};
   int r;
   ne_init();
   ne_sess.block_mode = COAP_BLOCK_USE_LIBCOAP | COAP_BLOCK_SINGLE_BODY;
   env_alloc_fail_enabled = 0;
   large_rel_calls = 0;
-  coap_pdu_t *pdu = coap_pdu_init(COAP_MESSAGE_CON, COAP_REQUEST_CODE_PUT, 0x1234, 100);
+  coap_pdu_t *pdu = coap_pdu_init(COAP_MESSAGE_CON, COAP_REQUEST_CODE_PUT, 0x1234, 128);   /* 100 bytes do not fit (42 are reserved for an Echo option): transfer state (lg_xmit) is needed */
   coap_add_token(pdu, 2, tokb);
   coap_add_option(pdu, COAP_OPTION_URI_PATH, 1, (const uint8_t *)"r");
   env_alloc_fail_enabled = 1;
-  r = coap_add_data_large_request_lkd(&ne_sess, pdu, 40, body, large_release, NULL);
+  r = coap_add_data_large_request_lkd(&ne_sess, pdu, 100, body, large_release, NULL);
   env_alloc_fail_enabled = 0;
   if (!r) {
     VERIF_ASSERT(large_rel_calls == 1, "large: a refused body is released exactly once");
@@ -260,21 +264,23 @@ VERIF_HARNESS(c18_large) {
     VERIF_ASSERT(pdu->actual_token.length == 2 && pdu->actual_token.s[0] == 0x51, "large: the caller's PDU is intact after the refusal");
   } else {
     coap_lg_xmit_t *lg = ne_sess.lg_xmit;
-    VERIF_ASSERT(large_rel_calls == 0 && lg != NULL && lg->next == NULL, "large: an accepted 40-byte body is kept by one transfer state");
+    VERIF_ASSERT(large_rel_calls == 0 && lg != NULL && lg->next == NULL, "large: an accepted 100-byte body is kept by one transfer state");
     LL_DELETE(ne_sess.lg_xmit, lg);
     coap_block_delete_lg_xmit(&ne_sess, lg);
     VERIF_ASSERT(large_rel_calls == 1, "large: dropping the transfer releases the body exactly once");
   }
   if (env_alloc_failed == 0) VERIF_ASSERT(r, "large: without failures the body is accepted");
   coap_delete_pdu(pdu);
+#ifdef C18_LARGE_SECOND
   {
-    coap_pdu_t *p2 = coap_pdu_init(COAP_MESSAGE_CON, COAP_REQUEST_CODE_PUT, 0x1235, 100);
+    coap_pdu_t *p2 = coap_pdu_init(COAP_MESSAGE_CON, COAP_REQUEST_CODE_PUT, 0x1235, 128);
     coap_add_token(p2, 2, tokb);
-    VERIF_ASSERT(p2 && coap_add_data_large_request_lkd(&ne_sess, p2, 40, body, large_release, NULL) == 1, "large: with memory available the next upload is accepted");
+    VERIF_ASSERT(p2 && coap_add_data_large_request_lkd(&ne_sess, p2, 100, body, large_release, NULL) == 1, "large: with memory available the next upload is accepted");
     coap_lg_xmit_t *lg = ne_sess.lg_xmit;
     if (lg) { LL_DELETE(ne_sess.lg_xmit, lg); coap_block_delete_lg_xmit(&ne_sess, lg); }
     coap_delete_pdu(p2);
   }
+#endif
 #ifdef WITNESS
   if (env_alloc_failed >= 1 && !r) VERIF_REACH("large: an allocation failed");
 #endif
